@@ -1967,6 +1967,32 @@ def _see_through_value_memos(mods: dict[str, Module], inv: dict, log: list[str])
             log.append(f"{mod.relpath} {q}: value memo `{cname}[{ktext}]` read as `{ast.unparse(E)[:60]}` ({n_reads} read(s))")
 
 
+def _splice_starred_displays(mods: dict[str, Module], log: list[str]) -> None:
+    """`f(a, *(b, c))` is `f(a, b, c)` (after a local holding the tuple has been substituted)."""
+    n = 0
+
+    class T(ast.NodeTransformer):
+        def visit_Call(self, node: ast.Call):  # noqa: N802
+            nonlocal n
+            self.generic_visit(node)
+            if any(isinstance(a, ast.Starred) and isinstance(a.value, (ast.Tuple, ast.List)) and not any(isinstance(x, ast.Starred) for x in a.value.elts) for a in node.args):
+                new_args: list[ast.expr] = []
+                for a in node.args:
+                    if isinstance(a, ast.Starred) and isinstance(a.value, (ast.Tuple, ast.List)) and not any(isinstance(x, ast.Starred) for x in a.value.elts):
+                        new_args.extend(a.value.elts)
+                    else:
+                        new_args.append(a)
+                node.args = new_args
+                n += 1
+            return node
+    for mod in mods.values():
+        for q, _, fn in _functions_of(mod):
+            T().visit(fn)
+            ast.fix_missing_locations(fn)
+    if n:
+        log.append(f"{n} starred tuple display(s) spliced into their call")
+
+
 def _exitstack_to_try(mods: dict[str, Module], log: list[str]) -> None:
     """`with contextlib.ExitStack() as stack: A; stack.callback(f, *a); B` (callbacks registered by top-level statements of the body, `stack` used for nothing
     else) is `A; try: B finally: f(*a)` - callbacks run in reverse order of registration, whatever way the body is left."""
@@ -2885,6 +2911,7 @@ def canonicalise(mods: dict[str, Module]) -> dict:
     _Forward(mods, inv, fwd_log).run()
     _canonical_foreach(mods, fwd_log)
     _Forward(mods, inv, fwd_log).run()
+    _splice_starred_displays(mods, fwd_log)
     # displays that only became literal once new locals / constants were substituted
     _unroll_literal_loops(mods, fwd_log)
     _unroll_literal_comprehensions(mods, fwd_log)
